@@ -931,6 +931,11 @@ func (dc *DirectConnection) WriteSetStatement() error {
 	}
 
 	for _, v := range dc.sessionVariables.GetUnusedAndClear() {
+		// reset the variable under the name it was set with above
+		if v.Name() == mysql.TxReadOnly && dc.versionCompare != nil && !dc.versionCompare.LessThanMySQLVersion803 {
+			appendSetVariableToDefault(&setVariableSQL, mysql.TransactionReadOnly)
+			continue
+		}
 		appendSetVariableToDefault(&setVariableSQL, v.Name())
 	}
 
